@@ -100,8 +100,8 @@ def run_dialect(srcs, csubs, timeout=1800):
         f = os.path.join(d, "dl.json")
         json.dump({"srcs": srcs, "csubs": csubs}, open(f, "w"))
         r = tlc.run("Dialect.tla", "Dialect.cfg", env={"TV_FILE": f}, timeout=timeout, tags=("DLREPORT",))
-        if r.states == 0:
-            raise tlc.TLCError("Dialect.tla did not run:\n" + r.out[-3000:])
+        if r.states < 2 * len(srcs) or r.error_text:
+            raise tlc.TLCError("Dialect.tla did not run to completion:\n" + r.out[-3000:])
         return {x["id"]: x["ok"] for x in r.reports["DLREPORT"] if "id" in x}, r
     finally:
         shutil.rmtree(d, ignore_errors=True)
